@@ -322,7 +322,7 @@ def oracle(case, obs):
 
 
 def model_op(case, obs):
-    return {"op": "wire_cuts", "hex": obs["stream"], "hashes": obs["hashes"]}
+    return {"op": "wire_cuts", "hex": obs["stream"]}     # identifiers by the model's own SHA-256 (Spec.descriptorHash)
 
 
 def compare(case, obs, mo):
